@@ -381,6 +381,9 @@ def run(ctx):
     # premise: instantiation (Quantified.unquantify / substitute) replaces exactly the occurrences of the bound variable (C15)
     from checks import c15 as _c15
     ctx.restate(_c15.run, 'C15.', 'C01.subst.', keep=lambda n: 'substitute' in n or 'unquantify' in n or 'rshift' in n)
+    # premise: the helper caches the rule bodies read (WorldIndex, NodeConsts, NodesWorlds, FilterNodeCache ...) describe THIS branch: listeners interpreted from source, forks copy and never alias
+    from checks import helpers_ob as _hob
+    _hob.helper_obligations(ctx, 'C01')
     # freshness premise of L-SOUND, under C01's own names: a witness constant / world handed out by the branch is new to it
     from checks import c06
     c06.append_obligations(ctx, 'C01.fresh', only=('fresh-constant', 'fresh-world'))
